@@ -8,7 +8,8 @@ use crate::osim::{Cb, CtrlMode, OCfg, OSim, Tx, MASTER_ADDR, OUTSTATION_ADDR};
 use crate::wire::app::{self, fc};
 use crate::wire::link;
 
-const SELECT_TIMEOUT: u64 = 5000;
+// different from the confirm timeout (5000) so that a mis-wired configuration field shows
+const SELECT_TIMEOUT: u64 = 3000;
 
 #[derive(Copy, Clone, Debug, PartialEq, Eq)]
 enum Obj {
